@@ -10,6 +10,9 @@
      - a Full item (cannot occur when nothing is buffered);
    a Start pushes its id, an End pops, and the result is the final (open, det).
    "Strict": unknown ids and hierarchy errors are not tolerated and no master is buffered.
+   With buffered masters (last part of this file, proofs in Proofs/BufferedNesting.v): for a drain that completes without an
+   error outcome the same holds of the emitted tags once every Full item is unrolled (C06_buffered_clean_well_nested and
+   following); for runs with an error inside a buffered master it is FALSE (C06_buffered_error_counterexample, finding D29).
 
    Byte ranges (second half of this file, proofs in Proofs/Extents.v): with oversized children not tolerated
    ([c_allow_over c = false]; the other tolerances arbitrary) and no master buffered, every element lies inside the byte range
@@ -23,9 +26,11 @@
        cursor may lie past the end of an open known-size master, whose End then comes late (nothing else can come: no input
        is left).  Likewise at the end of a truncated input the Ends of the open masters are emitted (if so configured) although
        their ranges are not exhausted.  Both exceptions are part of the statements;
-     - buffered masters (Full items) and the oversize-tolerant configuration are not covered; the statements are about the
+     - buffered masters (Full items) are covered for drains without an error outcome only (C06_buffered_clean_extents, last part
+       of this file) and the oversize-tolerant configuration is not covered; the statements are about the
        abstract reader (the buffered machine yields the same items, Proofs/Refine.v). *)
-From Ebml Require Import Base Tools Spec Reader Pure Proofs.Nesting Proofs.BufferSim Proofs.Tiling Proofs.Extents Proofs.AuditNesting.
+From Ebml Require Import Base Tools Spec Reader Pure Proofs.RollUp Proofs.Nesting Proofs.BufferSim Proofs.Tiling Proofs.Extents
+  Proofs.AuditNesting Proofs.BufferedNesting.
 
 (* For every input and every sequence of next() / try_recover() / drain operations (so also for the items that follow errors
    and recoveries), the emitted tags are accepted by the checker started with nothing determined and some base chain.  The
@@ -444,3 +449,268 @@ Example C06_ex_ranges_reject :
   chk_ext roomy [] 0 [(TStart 129, 0); (TStart 130, 2); (TElem 16641 (VU 5), 4); (TEnd 130, 2); (TEnd 129, 0); (TStart 129, 8);
                       (TEnd 129, 8)] = Some ([], 10).
 Proof. vm_compute. repeat split; reflexivity. Qed.
+
+(* ================================================================== buffered masters (Full items)
+   Everything above assumes [c_buffered c = []]; with a buffered set the reader yields Full items, which [chk] rejects as such.
+   Vocabulary (Props/C08.v): [flat tags]: every Full item replaced, recursively, by its Start, its unrolled children and its End;
+   [Unr b u]: the same on items with offsets (Start and End of a Full item at the offset of the Full item); [unbuffered c]: the
+   configuration c with an empty buffered set; [qtags U] / [all_q U]: the tags / the (tag, offset) pairs of the items U.
+   "Clean drain": every outcome of [p_run c input [RAll]] is an item or the final None - no error, no panic-site, budget or
+   item-limit outcome (the hypothesis of C08_buffered_run_unrolls).
+   Side condition, exactly as in C08: the drain of [unbuffered c] yields more items than the buffered one, so it alone can be cut
+   by the per-run item limit 4 * |input| + 64; the statements assume it is not ([~ In OLimit ...]) or, in the [_short] forms, that
+   the unrolled tag sequence is shorter than that limit (C08_limit_ex shows a condition is needed).
+   Proofs (Proofs/BufferedNesting.v): C08_buffered_run_unrolls(_items) composed with the statements above applied to [unbuffered c].
+
+   For runs WITH an error outcome the statement is FALSE (known finding D29): when an error occurs inside a buffered master
+   the reader has already consumed the master's Start and the children read so far into its private queue and drops them with
+   the error; after try_recover the remaining children and the master's End are yielded, but neither a Start nor a Full item of
+   that master ever is.  The emitted tags (unrolled or not) then contain an End without a Start and elements outside their
+   declared parent: no base chain makes [chk] accept them (C06_buffered_error_counterexample,
+   C06_buffered_error_counterexample_every_base below).  With nothing buffered the same input is well nested across the error
+   (C06_strict_items_well_nested). *)
+
+(* Unknown ids and hierarchy errors not tolerated, ANY buffered set, every input.  If the drain is clean and the drain of the
+   same configuration with nothing buffered is not cut at its item limit, then the tags of the drain with every Full item
+   unrolled recursively are accepted by the checker started with nothing determined and some base chain. *)
+Theorem C06_buffered_clean_well_nested : forall c input,
+  c_allow_id c = false -> c_allow_hier c = false ->
+  let outs := p_run c input [RAll] in
+  (forall o, In o outs -> match o with OItem _ _ | ONone => True | _ => False end) ->
+  ~ In OLimit (p_run (unbuffered c) input [RAll]) ->
+  exists base, chk (c_sp c) base false (flat (out_tags outs)) <> None.
+Proof. exact buffered_clean_well_nested. Qed.
+
+(* the same with the side condition "the unrolled tag sequence is shorter than the item limit 4 * |input| + 64" *)
+Theorem C06_buffered_clean_well_nested_short : forall c input,
+  c_allow_id c = false -> c_allow_hier c = false ->
+  let outs := p_run c input [RAll] in
+  (forall o, In o outs -> match o with OItem _ _ | ONone => True | _ => False end) ->
+  (length (flat (out_tags outs)) < 4 * length input + 64)%nat ->
+  exists base, chk (c_sp c) base false (flat (out_tags outs)) <> None.
+Proof. exact buffered_clean_well_nested_short. Qed.
+
+(* Rooted form (cf. C06_strict_items_well_nested_rooted).  Same hypotheses; if moreover the unrolled tag sequence begins with a
+   Start or element whose id is declared with the empty path (a root element), it is accepted from the EMPTY base. *)
+Theorem C06_buffered_clean_well_nested_rooted : forall c input,
+  c_allow_id c = false -> c_allow_hier c = false ->
+  let outs := p_run c input [RAll] in
+  (forall o, In o outs -> match o with OItem _ _ | ONone => True | _ => False end) ->
+  ~ In OLimit (p_run (unbuffered c) input [RAll]) ->
+  forall x rest, flat (out_tags outs) = x :: rest -> is_se x = true -> get_path (c_sp c) (tag_id x) = [] ->
+  chk (c_sp c) [] false (flat (out_tags outs)) <> None.
+Proof. exact buffered_clean_well_nested_rooted. Qed.
+
+Theorem C06_buffered_clean_well_nested_rooted_short : forall c input,
+  c_allow_id c = false -> c_allow_hier c = false ->
+  let outs := p_run c input [RAll] in
+  (forall o, In o outs -> match o with OItem _ _ | ONone => True | _ => False end) ->
+  (length (flat (out_tags outs)) < 4 * length input + 64)%nat ->
+  forall x rest, flat (out_tags outs) = x :: rest -> is_se x = true -> get_path (c_sp c) (tag_id x) = [] ->
+  chk (c_sp c) [] false (flat (out_tags outs)) <> None.
+Proof. exact buffered_clean_well_nested_rooted_short. Qed.
+
+(* ... the root condition put on the first item of the buffered drain itself: it is not an End (so a Start, an element, or the
+   Full item of a buffered root master) and its id is declared with the empty path *)
+Theorem C06_buffered_clean_well_nested_rooted_first : forall c input,
+  c_allow_id c = false -> c_allow_hier c = false ->
+  let outs := p_run c input [RAll] in
+  (forall o, In o outs -> match o with OItem _ _ | ONone => True | _ => False end) ->
+  ~ In OLimit (p_run (unbuffered c) input [RAll]) ->
+  forall y rest, out_tags outs = y :: rest -> (forall id, y <> TEnd id) -> get_path (c_sp c) (tag_id y) = [] ->
+  chk (c_sp c) [] false (flat (out_tags outs)) <> None.
+Proof. exact buffered_clean_well_nested_rooted_first. Qed.
+
+(* General form with the base pinned (cf. C06_drain_items_pinned): same hypotheses as C06_buffered_clean_well_nested; EITHER the
+   unrolled tags are accepted from the EMPTY base and the checker is still undetermined, OR they are
+   [pre ++ map TEnd o ++ x :: rest] with [x] the first Start / element whose declared path is placeholder-free, [pre] accepted
+   from the EMPTY base, undetermined, leaving exactly [o] open, and the whole sequence is accepted from the masters named by the
+   declared path of [x]. *)
+Theorem C06_buffered_clean_items_pinned : forall c input,
+  c_allow_id c = false -> c_allow_hier c = false ->
+  let outs := p_run c input [RAll] in
+  (forall o, In o outs -> match o with OItem _ _ | ONone => True | _ => False end) ->
+  ~ In OLimit (p_run (unbuffered c) input [RAll]) ->
+  let items := flat (out_tags outs) in
+  (exists o, chk (c_sp c) [] false items = Some (o, false)) \/
+  (exists pre o x rest, items = pre ++ map TEnd o ++ x :: rest /\ chk (c_sp c) [] false pre = Some (o, false) /\
+     is_se x = true /\ all_ids (get_path (c_sp c) (tag_id x)) = true /\
+     chk (c_sp c) (base_of (c_sp c) (tag_id x)) false items <> None).
+Proof. exact buffered_clean_items_pinned. Qed.
+
+(* ... and the accepting base satisfies [Based] (cf. C06_strict_items_based): it is empty or the chain of declared masters named
+   by a placeholder-free declared path *)
+Theorem C06_buffered_clean_items_based : forall c input,
+  c_allow_id c = false -> c_allow_hier c = false ->
+  let outs := p_run c input [RAll] in
+  (forall o, In o outs -> match o with OItem _ _ | ONone => True | _ => False end) ->
+  ~ In OLimit (p_run (unbuffered c) input [RAll]) ->
+  exists base, chk (c_sp c) base false (flat (out_tags outs)) <> None /\ Based (c_sp c) base (flat (out_tags outs)).
+Proof. exact buffered_clean_items_based. Qed.
+
+(* Byte ranges (cf. C06_run_all_extents).  Oversized children not tolerated, the other tolerances arbitrary, ANY buffered set,
+   every input: if the drain is clean and the drain with nothing buffered is not cut at its item limit, the items of the drain
+   have an unrolling [U] (Start and End of each Full item at the offset of the Full item) that the byte-range checker accepts
+   against the input bytes from a base of implied ancestors (offset 0, no range). *)
+Theorem C06_buffered_clean_extents : forall c input, c_allow_over c = false ->
+  let outs := p_run c input [RAll] in
+  (forall o, In o outs -> match o with OItem _ _ | ONone => True | _ => False end) ->
+  ~ In OLimit (p_run (unbuffered c) input [RAll]) ->
+  exists U, Unr (out_items outs) U /\ exists base, nobase base /\ chk_ext input base 0 (all_q U) <> None.
+Proof. exact buffered_clean_extents. Qed.
+
+Theorem C06_buffered_clean_extents_short : forall c input, c_allow_over c = false ->
+  let outs := p_run c input [RAll] in
+  (forall o, In o outs -> match o with OItem _ _ | ONone => True | _ => False end) ->
+  (length (flat (out_tags outs)) < 4 * length input + 64)%nat ->
+  exists U, Unr (out_items outs) U /\ exists base, nobase base /\ chk_ext input base 0 (all_q U) <> None.
+Proof. exact buffered_clean_extents_short. Qed.
+
+(* ONE pinned base for the three checkers (cf. C06_clean_prefix_pinned_all).  Unknown ids and hierarchy errors not tolerated, ANY
+   buffered set, every input, clean drain, unbuffered drain not cut: there are an unrolling [U] of the items of the drain, whose
+   tags are the unrolled tags of the drain, and a base determined by [pinned_base], such that the nesting checker accepts the
+   tags of U from [base], the End-offset checker of C03 accepts its (tag, offset) pairs from [zbase base], and - oversized
+   children not tolerated - the byte-range checker accepts them from [ebase base]. *)
+Theorem C06_buffered_clean_pinned_all : forall c input,
+  c_allow_id c = false -> c_allow_hier c = false ->
+  let outs := p_run c input [RAll] in
+  (forall o, In o outs -> match o with OItem _ _ | ONone => True | _ => False end) ->
+  ~ In OLimit (p_run (unbuffered c) input [RAll]) ->
+  exists U base, Unr (out_items outs) U /\ qtags U = flat (out_tags outs) /\
+    pinned_base (c_sp c) (qtags U) base /\
+    chk (c_sp c) base false (qtags U) <> None /\
+    chk_off (zbase base) (all_q U) <> None /\
+    (c_allow_over c = false -> chk_ext input (ebase base) 0 (all_q U) <> None).
+Proof. exact buffered_clean_pinned_all. Qed.
+
+(* Rooted form of the same: if the first item of the clean drain is not an End and its id is declared with the empty path, all
+   three checkers accept the unrolling from their EMPTY bases. *)
+Theorem C06_buffered_clean_rooted_all : forall c input,
+  c_allow_id c = false -> c_allow_hier c = false ->
+  let outs := p_run c input [RAll] in
+  (forall o, In o outs -> match o with OItem _ _ | ONone => True | _ => False end) ->
+  ~ In OLimit (p_run (unbuffered c) input [RAll]) ->
+  forall y rest, out_tags outs = y :: rest -> (forall id, y <> TEnd id) -> get_path (c_sp c) (tag_id y) = [] ->
+  exists U, Unr (out_items outs) U /\ qtags U = flat (out_tags outs) /\
+    chk (c_sp c) [] false (qtags U) <> None /\
+    chk_off [] (all_q U) <> None /\
+    (c_allow_over c = false -> chk_ext input [] 0 (all_q U) <> None).
+Proof. exact buffered_clean_rooted_all. Qed.
+
+Theorem C06_buffered_clean_rooted_all_short : forall c input,
+  c_allow_id c = false -> c_allow_hier c = false ->
+  let outs := p_run c input [RAll] in
+  (forall o, In o outs -> match o with OItem _ _ | ONone => True | _ => False end) ->
+  (length (flat (out_tags outs)) < 4 * length input + 64)%nat ->
+  forall y rest, out_tags outs = y :: rest -> (forall id, y <> TEnd id) -> get_path (c_sp c) (tag_id y) = [] ->
+  exists U, Unr (out_items outs) U /\ qtags U = flat (out_tags outs) /\
+    chk (c_sp c) [] false (qtags U) <> None /\
+    chk_off [] (all_q U) <> None /\
+    (c_allow_over c = false -> chk_ext input [] 0 (all_q U) <> None).
+Proof. exact buffered_clean_rooted_all_short. Qed.
+
+(* Root(129){ A(16643){ B(16645){ x(16641) = -200 } y(16642) = 7 } } with A and B buffered, B nested in A (the document of
+   C08_run_ex).  The drain yields Start Root, ONE Full item for A that contains the Full item of B, End Root, None. *)
+Definition C06_bex_sp : spec :=
+  [ {| e_id := 129; e_ty := DMaster; e_path := [] |}; {| e_id := 16643; e_ty := DMaster; e_path := [PId 129] |};
+    {| e_id := 16645; e_ty := DMaster; e_path := [PId 129; PId 16643] |};
+    {| e_id := 16641; e_ty := DSInt; e_path := [PId 129; PId 16643; PId 16645] |};
+    {| e_id := 16642; e_ty := DUInt; e_path := [PId 129; PId 16643] |} ].
+Definition C06_bex_cfg : cfg :=
+  {| c_sp := C06_bex_sp; c_allow_id := false; c_allow_hier := false; c_allow_over := false; c_max := Some 4000000000;
+     c_buffered := [16643; 16645]; c_emit_eof := true |}.
+Definition C06_bex_doc : list N := [129; 143; 65; 3; 140; 65; 5; 133; 65; 1; 130; 255; 56; 65; 2; 129; 7].
+
+(* the hypotheses of C06_buffered_clean_rooted_all hold for that drain (strict, clean, unbuffered drain not cut, first item the
+   Start of the root master), so the theorem applies; and the conclusion computes: the unrolled tags are accepted from the empty
+   base with nothing left open, the raw tags (with the Full item) are not, and the End-offset and byte-range checkers accept the
+   unrolled items (the drain of the unbuffered configuration) from their empty bases, the latter ending at offset 17 = |input| *)
+Example C06_buffered_ex :
+  let outs := p_run C06_bex_cfg C06_bex_doc [RAll] in
+  outs = [OItem (TStart 129) 0; OItem (TFull 16643 [TFull 16645 [TElem 16641 (VI (-200))]; TElem 16642 (VU 7)]) 2;
+          OItem (TEnd 129) 0; ONone] /\
+  (forall o, In o outs -> match o with OItem _ _ | ONone => True | _ => False end) /\
+  ~ In OLimit (p_run (unbuffered C06_bex_cfg) C06_bex_doc [RAll]) /\
+  (length (flat (out_tags outs)) < 4 * length C06_bex_doc + 64)%nat /\
+  flat (out_tags outs) =
+    [TStart 129; TStart 16643; TStart 16645; TElem 16641 (VI (-200)); TEnd 16645; TElem 16642 (VU 7); TEnd 16643; TEnd 129] /\
+  chk C06_bex_sp [] false (flat (out_tags outs)) = Some ([], true) /\
+  chk C06_bex_sp [] false (out_tags outs) = None /\
+  out_items (p_run (unbuffered C06_bex_cfg) C06_bex_doc [RAll]) =
+    [QOk (TStart 129) 0; QOk (TStart 16643) 2; QOk (TStart 16645) 5; QOk (TElem 16641 (VI (-200))) 8; QOk (TEnd 16645) 5;
+     QOk (TElem 16642 (VU 7)) 13; QOk (TEnd 16643) 2; QOk (TEnd 129) 0] /\
+  chk_off [] (all_q (out_items (p_run (unbuffered C06_bex_cfg) C06_bex_doc [RAll]))) = Some [] /\
+  chk_ext C06_bex_doc [] 0 (all_q (out_items (p_run (unbuffered C06_bex_cfg) C06_bex_doc [RAll]))) = Some ([], 17) /\
+  (exists U, Unr (out_items outs) U /\ qtags U = flat (out_tags outs) /\
+     chk C06_bex_sp [] false (qtags U) <> None /\ chk_off [] (all_q U) <> None /\
+     (c_allow_over C06_bex_cfg = false -> chk_ext C06_bex_doc [] 0 (all_q U) <> None)).
+Proof.
+  cbv zeta.
+  assert (H1 : forall o, In o (p_run C06_bex_cfg C06_bex_doc [RAll]) -> match o with OItem _ _ | ONone => True | _ => False end).
+  { vm_compute. intros o H. repeat (destruct H as [<-|H]; [exact I|]). contradiction H. }
+  assert (H2 : ~ In OLimit (p_run (unbuffered C06_bex_cfg) C06_bex_doc [RAll])).
+  { vm_compute. intros H. repeat (destruct H as [H|H]; [discriminate H|]). exact H. }
+  split; [vm_compute; reflexivity|]. split; [exact H1|]. split; [exact H2|].
+  split; [vm_compute; repeat constructor|].
+  do 6 (split; [vm_compute; reflexivity|]).
+  apply (C06_buffered_clean_rooted_all C06_bex_cfg C06_bex_doc eq_refl eq_refl H1 H2 (TStart 129)
+           [TFull 16643 [TFull 16645 [TElem 16641 (VI (-200))]; TElem 16642 (VU 7)]; TEnd 129]).
+  - vm_compute. reflexivity.
+  - intros id H. discriminate H.
+  - reflexivity.
+Qed.
+
+(* The counterexample for runs with an error (finding D29).  Root(0x81 = 129) > A(0x4103 = 16643) > b(0x4102 = 16642, binary);
+   u(0x4101 = 16641, unsigned) is a child of Root; A is buffered; strict.
+   Input (hex) 81 93 | 41 03 8c | 41 02 81 aa | f7 | 41 02 81 bb | 41 02 81 cc | 41 01 81 05 : Root{ A{ b=aa, <unknown id
+   0xf7 at offset 9>, b=bb, b=cc } u=5 }.  Operations: drain, try_recover, drain. *)
+Definition C06_berr_sp : spec :=
+  [ {| e_id := 129; e_ty := DMaster; e_path := [] |}; {| e_id := 16643; e_ty := DMaster; e_path := [PId 129] |};
+    {| e_id := 16642; e_ty := DBinary; e_path := [PId 129; PId 16643] |};
+    {| e_id := 16641; e_ty := DUInt; e_path := [PId 129] |} ].
+Definition C06_berr_cfg : cfg :=
+  {| c_sp := C06_berr_sp; c_allow_id := false; c_allow_hier := false; c_allow_over := false; c_max := Some 4000000000;
+     c_buffered := [16643]; c_emit_eof := true |}.
+Definition C06_berr_input : list N :=
+  [129; 147; 65; 3; 140; 65; 2; 129; 170; 247; 65; 2; 129; 187; 65; 2; 129; 204; 65; 1; 129; 5].
+
+(* The run: Start Root, the error (the Start of A and its first child b=aa, held in the private queue of the buffered master,
+   are dropped with it), try_recover succeeds, then b=bb, b=cc, End A - an End of a master of which neither a Start nor a Full
+   item was ever yielded -, u=5, End Root, None.  There is no Full item, so unrolling changes nothing.  The checker rejects the
+   emitted tags from every base chain of length at most 2 over the ids {Root, A}.  The first drain alone is [Start Root; error]:
+   not clean, so C06_buffered_clean_well_nested does not apply.  The same configuration with nothing buffered yields, on the
+   same input and operations, Start A and b=aa before the error, and its tags are accepted from the empty base with nothing
+   left open. *)
+Example C06_buffered_error_counterexample :
+  let run := p_run C06_berr_cfg C06_berr_input [RAll; RRecover; RAll] in
+  let tags := out_tags run in
+  run = [OItem (TStart 129) 0; OErr (RInvalidTagId 9 247); ORecOk;
+         OItem (TElem 16642 (VB [187])) 10; OItem (TElem 16642 (VB [204])) 14; OItem (TEnd 16643) 2;
+         OItem (TElem 16641 (VU 5)) 18; OItem (TEnd 129) 0; ONone] /\
+  flat tags = tags /\
+  chk C06_berr_sp [] false tags = None /\
+  chk C06_berr_sp [129] false tags = None /\
+  chk C06_berr_sp [16643] false tags = None /\
+  chk C06_berr_sp [129; 129] false tags = None /\
+  chk C06_berr_sp [129; 16643] false tags = None /\
+  chk C06_berr_sp [16643; 129] false tags = None /\
+  chk C06_berr_sp [16643; 16643] false tags = None /\
+  p_run C06_berr_cfg C06_berr_input [RAll] = [OItem (TStart 129) 0; OErr (RInvalidTagId 9 247)] /\
+  p_run (unbuffered C06_berr_cfg) C06_berr_input [RAll; RRecover; RAll] =
+    [OItem (TStart 129) 0; OItem (TStart 16643) 2; OItem (TElem 16642 (VB [170])) 5; OErr (RInvalidTagId 9 247); ORecOk;
+     OItem (TElem 16642 (VB [187])) 10; OItem (TElem 16642 (VB [204])) 14; OItem (TEnd 16643) 2;
+     OItem (TElem 16641 (VU 5)) 18; OItem (TEnd 129) 0; ONone] /\
+  chk C06_berr_sp [] false (out_tags (p_run (unbuffered C06_berr_cfg) C06_berr_input [RAll; RRecover; RAll])) = Some ([], true).
+Proof. vm_compute. repeat split; reflexivity. Qed.
+
+(* ... and from EVERY base chain whatsoever: the run begins with the Start of the root master, which only the empty base accepts
+   (C06_root_forces_empty_base), and the empty base rejects the sequence.  So the conclusion of C06_strict_items_well_nested
+   (and of C06_buffered_clean_well_nested) fails for this strict configuration with a buffered master. *)
+Example C06_buffered_error_counterexample_every_base : forall base,
+  chk (c_sp C06_berr_cfg) base false (flat (out_tags (p_run C06_berr_cfg C06_berr_input [RAll; RRecover; RAll]))) = None.
+Proof.
+  assert (E : flat (out_tags (p_run C06_berr_cfg C06_berr_input [RAll; RRecover; RAll])) =
+              TStart 129 :: [TElem 16642 (VB [187]); TElem 16642 (VB [204]); TEnd 16643; TElem 16641 (VU 5); TEnd 129])
+    by (vm_compute; reflexivity).
+  rewrite E. apply rooted_rejected_everywhere; [reflexivity|reflexivity|vm_compute; reflexivity].
+Qed.
